@@ -816,12 +816,16 @@ def replay_case(case) -> int:
         print("real:", o.get("status"), o.get("exc"), (o.get("msg") or "")[:200], "| verdict:", o.get("verdict"))
     elif lvl == "encode-total2-invalid":
         o = common.pool_map(_neg_worker_more, [tuple(case["case"])])[0]
-        print("constructor:", o.get("raised") or "accepts")
+        print("constructor:", o.get("raised") or "accepts", "| rtf_encode():", o.get("enc") or
+              ("returns" if o.get("raised") is None else "-"))
         if o.get("state") is not None:
             t = encodecorr.model_batch([_total_req(case["case"][0], o["state"])])[0]
             print("model:", t)
             if (o["raised"] is not None) == bool(t.get("accepted")):
-                res.disagree(case, "the accepted-predicate and the real constructor disagree on this value")
+                if o.get("enc"):
+                    res.fail(case, f"accepted at construction, rtf_encode() raises {o['enc']}")
+                else:
+                    res.disagree(case, "the accepted-predicate and the real constructor disagree on this value")
     elif lvl == "encode-total2-outside":
         o = common.pool_map(_outside_worker_more, [tuple(case["case"])])[0]
         print({k: v for k, v in o.items() if k not in ("state", "widths")})
